@@ -6,7 +6,7 @@ from .. import common as C
 from .. import engine as E
 from .. import catalogue as K
 
-THEOREMS = []
+THEOREMS = ["c15_spec_order_insensitive", "c15_deserialize_order_insensitive", "c15_wfv_preserved"]
 
 
 def objects(p, path=()):
